@@ -16,6 +16,8 @@ import (
 var c19Specs = []famSpec{
 	{Family: "rand-dense", Pool: 200000, PoolQ: 10000},
 	{Family: "lattice", Pool: 100000, PoolQ: 5000},
+	{Family: "rand-mid", Pool: 60000, PoolQ: 3000},
+	{Family: "big-n-mid", Pool: 3000, PoolQ: 60},
 	{Family: "rand-wide", FreshQ: 4000, FreshT: 200000},
 	{Family: "nested", FreshQ: 1500, FreshT: 50000},
 	{Family: "rectilinear", FreshQ: 1500, FreshT: 50000},
